@@ -507,3 +507,22 @@ func SortedInt64(xs []int64) []int64 {
 	sort.Slice(xs, func(i, j int) bool { return xs[i] < xs[j] })
 	return xs
 }
+
+// RectSoup: many small axis-aligned boxes on a coarse grid: shared edges, T-junctions, enclosed cavities, islands in
+// cavities - the inputs that exercise horizontal joins, join-splits and owner correction in the tree builder.
+func RectSoup(r *Rng) (subj, clp Paths) {
+	scale := PickOf(r, int64(1), 10, 1000)
+	m := int64(5 + r.Intn(6))
+	mk := func(k int) Paths {
+		ps := make(Paths, 0, k)
+		for i := 0; i < k; i++ {
+			x0, y0 := r.Range(0, m-1), r.Range(0, m-1)
+			x1, y1 := r.Range(x0+1, min(m, x0+4)), r.Range(y0+1, min(m, y0+4))
+			ps = append(ps, Box(x0*scale, y0*scale, x1*scale, y1*scale, true))
+		}
+		return ps
+	}
+	subj = mk(4 + r.Intn(10))
+	clp = mk(r.Intn(8))
+	return
+}
